@@ -160,6 +160,7 @@ fn kind_static(k: &str) -> &'static str {
         "sharedconfig" => "sharedconfig",
         "imds_instance" => "imds_instance",
         "telemetry" => "telemetry",
+        "client" => "client",
         _ => "echo",
     }
 }
@@ -406,6 +407,11 @@ pub async fn execute(seed: u64, plan: Value) -> Run {
                 if let Some(kind) = kind {
                     vrt::net::arm_fault(vrt::net::ArmedFault { dst: s["dst"].as_str().map(|d| clients::dst_addr(d)), agent_initiated: s["agent"].as_bool(), kind });
                 }
+            }
+            "clear_faults" => {
+                // faults nobody ran into do not leak into the next phase
+                st.lock().unwrap().faults.remove("client");
+                vrt::net::clear_faults();
             }
             "drain_faults" => {
                 let notify = st.lock().unwrap().notify.clone();
